@@ -399,6 +399,7 @@ class MockPg:
                 out.append(self.emit(req, 'C', b'PREPARE\0'))
             elif u.startswith('COPY ') and 'FROM STDIN' in u:
                 self.copy_in = True
+                req['started_copy'] = True
                 out.append(self.emit(req, 'G', b'\0\0\0'))
                 return out
             elif u.startswith('COPY ') and 'TO STDOUT' in u:
@@ -548,6 +549,15 @@ class HandleEnv:
             ip.env['on_timeout_elapsed'] = self._timeout_elapsed
         self._install()
 
+    def take_shutdown(self):
+        """tokio broadcast contract: the value main() sends once is received exactly once by this receiver -- by recv() or by
+        try_recv(), whichever asks first after it was sent.  Whether it has been sent by now is the solver's choice."""
+        if self.shutdown_mode and not self.shutdown_fired and self.ip.choose(2, 'shutdown_now') == 1:
+            self.shutdown_fired = True
+            self.events.append(('shutdown', [b.idx for b in self.backends if b.held], self.client_stream.pos))
+            return True
+        return False
+
     def _timeout_elapsed(self, dur):
         ns = dur.fields[0].v
         if self.idle_timeout_ms and ns == self.idle_timeout_ms * 1000000:
@@ -659,6 +669,12 @@ class HandleEnv:
         ip.overrides.append((re.compile(r'^tokio::macros::support::thread_rng_n$'),
                              lambda c, n: BV(32, c.ip.choose(2, 'select_start')) if env.shutdown_mode else BV(32, 0)))
         ip.overrides.append((re.compile(r'^tokio::sync::broadcast::Receiver::<.*>::recv$'), lambda c, r: Opaque('HookFuture', 'shutdown_recv', None)))
+
+        def try_recv(c, r):
+            if env.take_shutdown():
+                return EnumV(BV(64, 0), {'Ok': [unit()]}, 'Result')
+            return EnumV(BV(64, 1), {'Err': [c.ip.make_enum('TryRecvError', 'Empty') if 'TryRecvError' in c.ip.prog.src.enums else Opaque('TryRecvError', 'Empty')]}, 'Result')
+        ip.overrides.append((re.compile(r'^tokio::sync::broadcast::Receiver::<.*>::try_recv$'), try_recv))
         ip.overrides.append((re.compile(r'^tokio::future::poll_fn::poll_fn::<'), lambda c, f: Opaque('PollFn', 'pollfn', f)))
 
         def pollfn_poll(c, pin, cx):
@@ -691,10 +707,7 @@ class HandleEnv:
                 if co.tag == 'ready':
                     return EnumV(BV(64, 0), {'Ready': [co.data]}, 'Poll')
                 if co.tag == 'shutdown_recv':
-                    if env.shutdown_mode and not env.shutdown_fired and ip_.choose(2, 'shutdown_now') == 1:
-                        # tokio contract: recv() yields the broadcast value once it has been sent
-                        env.shutdown_fired = True
-                        env.events.append(('shutdown', [b.idx for b in env.backends if b.held], env.client_stream.pos))
+                    if env.take_shutdown():
                         return EnumV(BV(64, 0), {'Ready': [EnumV(BV(64, 0), {'Ok': [unit()]}, 'Result')]}, 'Poll')
                     return EnumV(BV(64, 1), {}, 'Poll')          # no (further) shutdown signal
                 if co.tag == 'notified':
@@ -854,7 +867,7 @@ def collect(env, session=None):
             if r.get('session', 0) != session:
                 continue
             reqs.append(dict(g=r['g'], backend=b.idx, bytes=r['bytes'], delivered=r['delivered'], status_after=r.get('status_after'),
-                             client_done=r['client_done'], params_before=r.get('params_before')))
+                             client_done=r['client_done'], params_before=r.get('params_before'), started_copy=r.get('started_copy', False)))
     reqs.sort(key=lambda x: x['g'])
     handovers = []
     for b in env.backends:
@@ -891,6 +904,7 @@ def collect_native(res, session=0):
             seen_a.add(r['conn'])
             reqs.append(dict(g=r['g'], backend=r['conn'] // 100, bytes=bvs(r['hex']), delivered=[bvs(d) for d in r['delivered']],
                              status_after=BV(8, r['status_after']), client_done=(True if r['phase'] == 3 else None),
+                             started_copy=any(d[:2] == '47' for d in r['delivered']),
                              params_before={k: v.encode('latin1') for k, v in r['before'].get('params', {}).items()} or None))
         elif r['phase'] == 2 and r['conn'] in seen_a and r['conn'] not in probed:
             # the next client got the very same server connection: this is the hand-over
@@ -946,12 +960,13 @@ def judge(data, script, dec, expect_forward=None, cache_on=False, denied=None, e
     # told "terminating connection due to administrator command" and the session ends; what it had sent before is served normally
     for e in data['events']:
         if e[0] == 'shutdown':
-            if e[1]:
-                V.append(('C17', 'H/shutdown-interrupts-transaction', 'the shutdown signal is acted on while the session holds backend %r (a transaction in progress must be allowed to finish)' % (e[1],)))
             outm, _ = split_messages(data['client_out'], 'bytes written to the client')
             last = conc(outm[-1]) if outm else None
-            if outcome != ('done', 'Ok') or last is None or last[:1] != b'E' or b'terminating connection due to administrator command' not in last:
-                V.append(('C17', 'H/shutdown-not-announced', 'after the shutdown signal the session does not end with the administrator-command error (outcome %r, last message %s)' % (outcome, show(outm[-1][:40]) if outm else None)))
+            announced = outcome == ('done', 'Ok') and last is not None and last[:1] == b'E' and b'terminating connection due to administrator command' in last
+            if e[1] and announced and not any(x[0] == 'client_read' and x[1] > 0 and not x[2] for x in data['events'][data['events'].index(e):]):
+                V.append(('C17', 'H/shutdown-interrupts-transaction', 'the shutdown signal ends the session while it holds backend %r (a transaction in progress must be allowed to finish)' % (e[1],)))
+            if not announced and outcome[0] != 'panic':
+                V.append(('C17', 'H/shutdown-not-announced', 'the shutdown signal was received by this session but it does not end with the administrator-command error (outcome %r, last message %s)' % (outcome, show(outm[-1][:40]) if outm else None)))
     # ---- cancel map (C10): while the session holds a server the client's key maps to exactly that server; once the server is
     # released (transaction mode) or the client is gone, the key maps to nothing
     for e in data['events']:
@@ -1094,11 +1109,14 @@ def judge(data, script, dec, expect_forward=None, cache_on=False, denied=None, e
         if outcome[0] in ('done', 'panic') and ndisc == 0:
             V.append(('C18', 'H/client-never-unregistered/' + outcome[0], 'the session is over (%s) but the client was never removed from the statistics' % (outcome,)))
         units = [r for r in data['reqs'] if r.get('origin') == 'client' and code_of(r['bytes']) in 'QS']
-        if outcome[0] == 'done' and not any(code_of(m) in 'dcf' for m in script) and not any(e[0] in ('statement_timeout',) for e in data['events']):
+        if outcome[0] == 'done' and not any(e[0] in ('statement_timeout',) for e in data['events']):
             # (a request whose reply could not be written because the client had vanished may or may not have been counted)
             slack = 1 if data.get('client_write_failed') else 0
             want_q = len(units)
-            want_tx = sum(1 for r in units if r.get('status_after') is not None and dec(r['status_after'].z() == ord('I')))
+            # a transaction is complete when the backend reports idle after a request -- for COPY FROM STDIN that is the reply to
+            # CopyDone / CopyFail, not the CopyInResponse
+            ends = [r for r in data['reqs'] if r.get('origin') == 'client' and code_of(r['bytes']) in 'QScf' and not r.get('started_copy')]
+            want_tx = sum(1 for r in ends if r['delivered'] and r.get('status_after') is not None and dec(r['status_after'].z() == ord('I')))
             if not (want_q - slack <= nq <= want_q):
                 V.append(('C18', 'H/query-total', 'the client\'s query total grew by %d for %d requests executed on the servers' % (nq, want_q)))
             # (a Sync the pooler answers itself -- nothing buffered, or everything cached -- may or may not be counted as a transaction:
